@@ -30,8 +30,14 @@ func c20TM(r *rand.Rand, g *Gram, name string, o TMOpts) string {
 	for t := 1; t < g.NT; t++ {
 		fmt.Fprintf(&sb, "'%s': /%s/\n", g.SymName(t), g.SymName(t))
 	}
+	reported := strings.Contains(o.Extra, "reported")
+	if reported {
+		sb.WriteString("Comment: /#[0-9]*#/ (space)\n")
+	}
 	if o.Recovering {
 		sb.WriteString("error:\ninvalid_token:\n")
+	} else if reported {
+		sb.WriteString("invalid_token:\n")
 	}
 	sb.WriteString("\n::parser\n\n")
 	var ins []string
@@ -43,6 +49,9 @@ func c20TM(r *rand.Rand, g *Gram, name string, o TMOpts) string {
 		ins = append(ins, s)
 	}
 	fmt.Fprintf(&sb, "%%input %s;\n\n", strings.Join(ins, ", "))
+	if reported {
+		sb.WriteString("%inject Comment -> Comment;\n%inject invalid_token -> InvalidToken;\n\n")
+	}
 	sym := func(s int) string {
 		if s == errorSym {
 			return "error"
@@ -213,7 +222,123 @@ func c20TraceEvents(out string) (evs []c20Ev, handler bool) {
 	return
 }
 
+// c20Decorate inserts comments, invalid characters and blanks between the tokens of text.
+func c20Decorate(r *rand.Rand, text string) string {
+	var sb strings.Builder
+	for i := 0; i <= len(text); i++ {
+		switch r.Intn(8) {
+		case 0:
+			fmt.Fprintf(&sb, " #%s# ", strings.Repeat("7", r.Intn(12)))
+		case 1:
+			sb.WriteString("%")
+		case 2, 3:
+			sb.WriteString(" ")
+		}
+		if i < len(text) {
+			sb.WriteByte(text[i])
+		}
+	}
+	return sb.String()
+}
+
+// c20GeneratedReported: generated parsers that REPORT skipped tokens (comment and invalid_token
+// injected into the stream) and trim trailing whitespace; every text is parsed by a fresh Parser and
+// by a Parser that has parsed a (mostly broken) other text before.
+func c20GeneratedReported(c *Ctx) {
+	nG := c.N(8, 100)
+	batchSize := 8
+	cfg := GramCfg{MaxNT: 4, MaxNN: 4, MaxRules: 3, MaxRHS: 4, MultiInput: false, PEmpty: 0.3}
+	for done := 0; done < nG; done += batchSize {
+		b, err := NewBatch()
+		if err != nil {
+			c.Notes = append(c.Notes, err.Error())
+			return
+		}
+		type item struct {
+			g  *Gram
+			gp *GenParser
+		}
+		var items []item
+		for k := 0; k < batchSize && done+k < nG; k++ {
+			g := genConflictFree(c, cfg, true)
+			if g == nil {
+				continue
+			}
+			o := TMOpts{Optimize: c.Rng.Intn(3) == 0, Space: true, FixWhitespace: true, Extra: "reported"}
+			name := fmt.Sprintf("q%d", done+k)
+			gp := compileTM(name, c20TM(c.Rng, g, name, o), o)
+			if gp.Err != nil {
+				c.Count("generated reported: grammar rejected: " + firstWords(errSummary(gp.Err), 6))
+				continue
+			}
+			b.Add(gp)
+			items = append(items, item{g, gp})
+		}
+		if len(items) == 0 {
+			b.Close()
+			continue
+		}
+		if err := b.Build(); err != nil {
+			c.Violate("generated parsers (reported skipped tokens) do not build: "+err.Error(), items[0].gp.TM)
+			b.Close()
+			continue
+		}
+		var reqs []RunReq
+		var metas []item
+		for _, it := range items {
+			in := it.g.Inputs[0]
+			ws := sampleWords(c, it.g, in.Sym, 3, 8)
+			for _, w := range ws {
+				text := c20Decorate(c.Rng, wordText(it.g, w))
+				// a first input that breaks right behind a comment / invalid token
+				pw := ws[c.Rng.Intn(len(ws))]
+				pt := wordText(it.g, pw)
+				if len(pt) > 0 {
+					pt = pt[:c.Rng.Intn(len(pt)+1)]
+				}
+				prev := c20Decorate(c.Rng, pt) + fmt.Sprintf(" #%s# ", strings.Repeat("1", c.Rng.Intn(10)))
+				if c.Rng.Intn(2) == 0 {
+					prev += wordText(it.g, it.g.RandString(c.Rng, 1+c.Rng.Intn(2)))
+				}
+				reqs = append(reqs, RunReq{Parser: it.gp.Name, Input: 0, Text: text}, RunReq{Parser: it.gp.Name, Input: 0, Text: text, Prev: prev})
+				metas = append(metas, it, it)
+			}
+		}
+		outs := b.Run(reqs)
+		b.Close()
+		for i := 0; i+1 < len(reqs); i += 2 {
+			gp := metas[i].gp
+			text := reqs[i].Text
+			fresh, reused := outs[i], outs[i+1]
+			desc := fmt.Sprintf("%q with %s", text, gp.TM)
+			for k, out := range []string{fresh, reused} {
+				who := "fresh Parser"
+				if k == 1 {
+					who = fmt.Sprintf("Parser that parsed %q before", reqs[i+1].Prev)
+				}
+				if out == "crash" || strings.HasSuffix(out, "panic") {
+					c.Violate("generated parser (reported skipped tokens, "+who+") panicked: "+out, desc)
+					continue
+				}
+				evs, _ := c20TraceEvents(out)
+				if msg := c20Direct(evs, len(text)); msg != "" {
+					c.Violate("generated parser (reported skipped tokens, fixWhitespace; "+who+"): "+msg+"; trace "+out, desc)
+				}
+			}
+			if strings.HasSuffix(fresh, "ok") {
+				c.Count("generated reported+fixWhitespace: accepted")
+			} else {
+				c.Count("generated reported+fixWhitespace: syntax error")
+			}
+			if fresh != reused {
+				c.Violate(fmt.Sprintf("state leaks between parses: a generated Parser that parsed %q before reports %q, a fresh Parser reports %q", reqs[i+1].Prev, reused, fresh), desc)
+			}
+		}
+	}
+}
+
 func c20Generated(c *Ctx) {
+	c20GeneratedReported(c)
 	nG := c.N(20, 300)
 	batchSize := 20
 	cfg := GramCfg{MaxNT: 4, MaxNN: 4, MaxRules: 3, MaxRHS: 4, MultiInput: true, PEmpty: 0.3}
